@@ -52,6 +52,20 @@ def obligations(tier):
       add(smt_custom('C09/normalize/contract_%s[n=%d]' % (which, n), 'brax.math:normalize', text, _normalize_clause(n, which),
                      timeout=100, budget=240))
 
+  # ---- safe_norm: the contract used at cuts (cuts.safe_norm_smt) ------------------------------------------
+  def _safe_norm_clause(which):
+    def body(A):
+      import z3
+      x = A.arr('x', (3,))
+      n = sym_call(Interp(A), math.safe_norm, Sym(x)).item()
+      tiny = z3.And(*[z3.And(e <= z3.RealVal(str(TINY)), e >= -z3.RealVal(str(TINY))) for e in x])
+      if which == 'tiny':
+        return [tiny], [n == 0]
+      return [z3.Not(tiny)], [n >= 0, n * n == sum_sq(A, x)]
+    return body
+  for which, text in (('tiny', 'all |x_i| <= 1e-8  =>  safe_norm(x) = 0'), ('nontiny', 'some |x_i| > 1e-8  =>  n >= 0 and n^2 = x.x')):
+    add(smt_custom('C09/safe_norm/contract_%s[n=3]' % which, 'brax.math:safe_norm', text, _safe_norm_clause(which), timeout=100, budget=240))
+
   # ---- orthogonals: right-handed orthonormal frame completion, by cases on the `where` ----------------
   def orth_law(a):
     b, c = math.orthogonals(a)
